@@ -6,7 +6,9 @@
   structural on the *filter* (the document never has to shrink).
   Outside the fidelity zone F (answer `unmodelled`): `$expr` (until MongoModel.Expr is plugged
   in), `$regex` beyond literal patterns with optional `^`/`$` anchors, `$options`, compiled
-  regular-expression values, negative array indexes in paths, empty path components.
+  regular-expression values, negative array indexes in paths.  (Empty path components are field
+  names like any other since the repair "a filter looks the empty field name up like any other
+  field": `candsKey`.)
 -/
 import MongoModel.Bson
 import MongoModel.Expr
